@@ -58,12 +58,13 @@ theorem handler_innermost_through (k n : Nat) (b : E) (cs : List Catch) (t' : Ta
   obtain ⟨σ2, h2, hh, ho⟩ := path_err_transparent P k n _ t' σ σ' σ1 v hp h
   exact ⟨σ2, by simp only [run, h2, catchWith], hh, ho⟩
 
-/-- Typed catch blocks are tried in source order: the first whose type hint accepts the value runs,
-with the value bound to its variable. -/
+/-- Catch blocks are tried in source order: the first whose argument accepts the value — no hint,
+a type hint, or a map pattern all of whose keys the thrown map has — runs, with the value (or the
+pattern's entries) bound. -/
 theorem typed_catch_order (pre : List Catch) (ty : Option Ty) (x : Nat) (body : E) (rest : List Catch)
     (v : Val) (hpre : ∀ c ∈ pre, accepts c.1 v = false) (hacc : accepts ty v = true) (n : Nat) (σ : St) :
     run cfg P (n + pre.length + 1) (.catches (pre ++ (ty, x, body) :: rest) v) σ =
-      run cfg P n (.ev body) (setLocal σ x v) := by
+      run cfg P n (.ev body) (bindCatch σ ty x v) := by
   induction pre with
   | nil => simp [run, hacc]
   | cons c pre ih =>
@@ -79,7 +80,9 @@ example : run guide {} 6 (.catches [(some .number, 0, .lit (.int 1)), (some .str
     (none, 0, .lit (.int 3))] (.str (.lit 0))) {} = (.ok (.int 2), { locals := [.str (.lit 0)] }) := by
   decide
 
-/-- No catch block accepts: the error continues outwards unchanged, state untouched. -/
+/-- No catch block accepts — in particular a map pattern in the *last* catch block that does not
+match (finding F-C04-9: the code used to swallow the error there) —: the error continues outwards
+unchanged, state untouched. -/
 theorem no_accepting_catch (cs : List Catch) (v : Val) (h : ∀ c ∈ cs, accepts c.1 v = false)
     (n : Nat) (σ : St) :
     run cfg P (n + cs.length + 1) (.catches cs v) σ = (.err v, σ) := by
@@ -189,14 +192,15 @@ theorem state_after_catch (n : Nat) (b : E) (pre : List Catch) (ty : Option Ty) 
     (h : run cfg P (n + pre.length + 1) (.ev b) σ = (.err v, σ1))
     (hpre : ∀ c ∈ pre, accepts c.1 v = false) (hacc : accepts ty v = true) :
     run cfg P (n + pre.length + 2) (.ev (.try_ b (pre ++ (ty, x, body) :: rest) none)) σ =
-      run cfg P n (.ev body) (setLocal σ1 x v) ∧
-    (setLocal σ1 x v).heap = σ1.heap ∧ (setLocal σ1 x v).out = σ1.out ∧
-    (∀ y, y ≠ x → getLocal (setLocal σ1 x v) y = getLocal σ1 y) := by
-  refine ⟨?_, rfl, rfl, ?_⟩
+      run cfg P n (.ev body) (bindCatch σ1 ty x v) ∧
+    (bindCatch σ1 ty x v).heap = σ1.heap ∧ (bindCatch σ1 ty x v).out = σ1.out ∧
+    ((∀ ks, ty ≠ some (.keys ks)) → ∀ y, y ≠ x → getLocal (bindCatch σ1 ty x v) y = getLocal σ1 y) := by
+  refine ⟨?_, bindCatch_heap _ _ _ _, bindCatch_out _ _ _ _, ?_⟩
   · rw [show n + pre.length + 2 = (n + pre.length + 1) + 1 by omega,
       handler_innermost cfg P (n + pre.length + 1) b _ σ σ1 v h]
     exact typed_catch_order cfg P pre ty x body rest v hpre hacc n σ1
-  · intro y hy
+  · intro hty y hy
+    rw [bindCatch_plain σ1 ty x v hty]
     simp only [getLocal, setLocal]
     rw [List.getD_eq_getElem?_getD, List.getD_eq_getElem?_getD, List.getElem?_set_ne (Ne.symm hy)]
     by_cases hlt : y < σ1.locals.length
@@ -204,8 +208,16 @@ theorem state_after_catch (n : Nat) (b : E) (pre : List Catch) (ty : Option Ty) 
     · have hge : σ1.locals.length ≤ y := Nat.le_of_not_lt hlt
       rw [List.getElem?_append_right hge, List.getElem?_eq_none hge]
       by_cases h2 : y - σ1.locals.length < x + 1 - σ1.locals.length
-      · simp [List.getElem?_replicate, h2]
-      · simp [List.getElem?_replicate, h2]
+      · simp [h2]
+      · simp [h2]
+
+/-- a map pattern: matching, missing key (next block), not a map (next block), and — in last
+position — no match at all: the error leaves the try unchanged -/
+example : (List.map (fun v : Val =>
+      (run guide {} 9 (.ev (.try_ (.throw (.lit v))
+        [(some (.keys [0, 2]), 0, .bin .add (.var 0) (.var 1)), (some (.keys [1]), 0, .lit (.int 7))] none)) {}).1)
+    [.mp [(0, 1), (2, 5)], .mp [(1, 3)], .mp [(0, 1)], .str (.lit 4)]) =
+    [.ok (.int 6), .ok (.int 7), .err (.mp [(0, 1)]), .err (.str (.lit 4))] := by decide
 
 /-- the raise point itself: `throw` and every failing primitive raise in the current state -/
 theorem raise_state_throw (n : Nat) (e : E) (σ σ1 : St) (v : Val)
